@@ -11,9 +11,11 @@
   (a) chunk grids      C01_assemble_blocks, C01_index_in_exactly_one_block, C01_get_item_regular, C01_block_id_roundtrip
   (b) reductions       C01_reduce_groups_partition(_nd), C01_reduce_tree_correct, C01_argmax_first
   (c) one-to-one ops   C01_repeat_correct(_1d), C01_concat_slices_correct, C01_unstack_correct, C01_reshape_key_bijective,
-                       C01_stack_correct_partial / C01_stack_full_fails   (known defect: differing chunkings)
+                       C01_stack_correct (since f3856f5: chunks are unified), C01_stack_unified_blocks_correct,
+                       C01_stack_old_variant_fails (the variant before f3856f5, without unification)
   (d) selections       C01_selection_correct(_nd), C01_rechunk_correct(_nd), C01_index_slice_correct, C01_flip_correct
-  (e) scan             C01_scan_accepts_iff, C01_scan_correct_partial, C01_scan_full_fails
+  (e) scan             C01_scan_accepts (since 5fff6ae: every block count), C01_scan_increment_read_in_bounds,
+                       C01_scan_correct_partial, C01_scan_old_accepts_iff / C01_scan_old_variant_fails (before 5fff6ae)
 -/
 import CubedModel.Proofs.ArraySem
 import CubedModel.Proofs.Ops
@@ -152,24 +154,34 @@ theorem C01_reshape_key_bijective (inNb outNb : List Nat)
   ⟨fun out h => reshapeKey_spec inNb outNb out hprod h,
    fun o1 o2 h1 h2 h => reshapeKey_injective inNb outNb o1 o2 h1 h2 h hprod⟩
 
-/-- Full statement for `stack`: for inputs of equal shape and *any* regular chunkings, element
-`(…, k, …)` of the result is element `…` of input `k`.  The unchanged code falsifies it (below). -/
-def C01_stack_full : Prop :=
-  ∀ (arrs : Nat → List Nat → Nat) (shape : List Nat) (css : Nat → List Nat) (axis k : Nat) (js : List Nat),
-    (∀ k, AllPos (css k) ∧ (css k).length = shape.length) → InBox js shape → axis ≤ js.length →
-    stackEval arrs (fun _ => shape) css axis (insertAt axis k js) = some (arrs k js)
+/-- `stack` (since f3856f5 the inputs are checked for equal shape and the other inputs are rechunked to the
+chunking of the first): for inputs of equal shape and *any* regular chunkings, element `(…, k, …)` of the
+result is element `…` of input `k`.  Composition of `C01_rechunk_correct_nd` and the block-level lemma below. -/
+theorem C01_stack_correct {α : Type} (arrs : Nat → List Nat → α) (shape : List Nat) (css : Nat → List Nat)
+    (axis k : Nat) (js : List Nat) (hpos : AllPos (css 0)) (hlen : ∀ k, (css k).length = shape.length)
+    (hjs : InBox js shape) (ha : axis ≤ js.length) :
+    stackUnified arrs shape css axis (insertAt axis k js) = some (arrs k js) :=
+  stackUnified_correct arrs shape css axis k js hpos hlen hjs ha
 
-/-- `stack` is correct when every input has the chunking of the first (explicit extra hypothesis:
-`css` is constant). -/
-theorem C01_stack_correct_partial {α : Type} (arrs : Nat → List Nat → α) (shape cs : List Nat) (axis k : Nat)
+/-- the block-level op (out block `(…, k, …)` reads the block with the remaining coordinates of input `k`,
+`expand_dims`) is correct when every input has the chunking of the first — the situation after unification. -/
+theorem C01_stack_unified_blocks_correct {α : Type} (arrs : Nat → List Nat → α) (shape cs : List Nat) (axis k : Nat)
     (js : List Nat) (hpos : AllPos cs) (hlen : shape.length = cs.length) (hjs : InBox js shape)
     (ha : axis ≤ js.length) :
     stackEval arrs (fun _ => shape) (fun _ => cs) axis (insertAt axis k js) = some (arrs k js) :=
   stack_correct_partial arrs shape cs axis k js hpos hlen hjs ha
 
-/-- witness: `stack([a chunks (2,), b chunks (1,)])` with `a = [1,2]`, `b = [3,4]`: element `(1,1)` is read
-from block 0 of `b` (a single element, broadcast into the 1×2 chunk) and is `3`, not `4`. -/
-theorem C01_stack_full_fails : ¬ C01_stack_full := by
+/-- OLD variant (before f3856f5, no unification): the full statement for the block-level op applied to
+inputs with their own chunkings … -/
+def C01_stack_old_full : Prop :=
+  ∀ (arrs : Nat → List Nat → Nat) (shape : List Nat) (css : Nat → List Nat) (axis k : Nat) (js : List Nat),
+    (∀ k, AllPos (css k) ∧ (css k).length = shape.length) → InBox js shape → axis ≤ js.length →
+    stackEval arrs (fun _ => shape) css axis (insertAt axis k js) = some (arrs k js)
+
+/-- … is false: `stack([a chunks (2,), b chunks (1,)])` with `a = [1,2]`, `b = [3,4]`: element `(1,1)` is read
+from block 0 of `b` (a single element, broadcast into the 1×2 chunk) and is `3`, not `4`.  This is why the
+unification step is needed; reverting f3856f5 re-introduces exactly this. -/
+theorem C01_stack_old_variant_fails : ¬ C01_stack_old_full := by
   intro h
   have := h (fun k idx => 2 * k + idx.headD 0 + 1) [2] (fun k => if k = 0 then [2] else [1]) 0 1 [1]
     (by intro k; by_cases hk : k = 0 <;> simp [hk, AllPos]) (by simp [InBox]) (by simp)
@@ -224,24 +236,42 @@ theorem C01_flip_correct {α : Type} (A : Nat → α) (n c i : Nat) (hc : 0 < c)
 
 /-! ## (e) scan (cumulative_sum / cumulative_prod) -/
 
-/-- The build-time assertion of `scan` holds exactly when `nb ≤ split_every` or `split_every ∣ nb`
-(otherwise the call raises `AssertionError`: a decline, not a wrong value). -/
-theorem C01_scan_accepts_iff (s nb : Nat) (hs : 0 < s) (hnb : 0 < nb) :
-    scanAccepts s nb = true ↔ (nb ≤ s ∨ nb % s = 0) :=
-  scanAccepts_iff s nb hs hnb
+/-- `scan` (since 5fff6ae): the array of per-block totals is declared with the chunk sizes
+`(split_size,) * (nb // split_size) + (nb % split_size,)`; there are `ceil(nb / split_size)` of them and they
+sum to `nb`, so the build-time assertion `increment.shape[axis] == numblocks[axis]` holds for *every* block
+count and every `split_every`. -/
+theorem C01_scan_accepts (s nb : Nat) :
+    scanAccepts s nb = true ∧ (scanReducedSizes s nb).sum = nb
+    ∧ (0 < s → 0 < nb → (scanReducedSizes s nb).length = nblocks nb (scanSplitSize s nb)) :=
+  ⟨scanAccepts_all s nb, by unfold scanReducedSizes; exact sum_chunksOf _ _,
+   fun hs hnb => length_scanReducedSizes s nb hs hnb⟩
 
-/-- Full statement "scan accepts every block count" — false on the unchanged code. -/
-def C01_scan_full : Prop := ∀ s nb, 0 < s → 0 < nb → scanAccepts s nb = true
+/-- `_scan_binop` reads `inc[bi % split_every]` of increment block `bi // split_every`: that block exists,
+the local index is inside it (also in the ragged last block), and it is position `bi` of the increment array. -/
+theorem C01_scan_increment_read_in_bounds (s nb bi : Nat) (hs : 0 < s) (hbi : bi < nb) :
+    bi / s < nblocks nb (scanSplitSize s nb) ∧ bi % s < blockLen nb (scanSplitSize s nb) (bi / s)
+    ∧ scanIncPos s (scanSplitSize s nb) bi = bi :=
+  ⟨(scanInc_inBounds s nb bi hs hbi).1, (scanInc_inBounds s nb bi hs hbi).2, scanIncPos_eq s nb bi hbi⟩
 
-theorem C01_scan_full_fails : ¬ C01_scan_full := by
+/-- OLD variant (before 5fff6ae, all chunks of the totals array declared `split_size`): the assertion held
+exactly when `nb ≤ split_every` or `split_every ∣ nb` … -/
+theorem C01_scan_old_accepts_iff (s nb : Nat) (hs : 0 < s) (hnb : 0 < nb) :
+    scanAcceptsOld s nb = true ↔ (nb ≤ s ∨ nb % s = 0) :=
+  scanAcceptsOld_iff s nb hs hnb
+
+def C01_scan_old_full : Prop := ∀ s nb, 0 < s → 0 < nb → scanAcceptsOld s nb = true
+
+/-- … so it rejected e.g. 6 blocks (reverting 5fff6ae re-introduces this `AssertionError`). -/
+theorem C01_scan_old_variant_fails : ¬ C01_scan_old_full := by
   intro h
   have := h 5 6 (by decide) (by decide)
   revert this
   decide
 
-/-- One level of `scan`, under the explicit hypothesis that the increment array holds at position `p` the
-fold of everything before block `p` (delivered by `partial_reduce` and the recursive call, which is not
-unfolded here — that is what is missing for the full statement): `binop(scanned, increment[bi])` is the
+/-- One level of `scan` for every block count (no acceptance hypothesis is needed any more), under the explicit
+hypothesis that the increment array holds at position `p` the fold of everything before block `p` (delivered
+by `partial_reduce` and the recursive call, which is not unfolded here — that is what is missing for the full
+statement): `binop(scanned, increment[bi])` is the
 inclusive scan of the whole axis.  The code applies `binop(scanned, inc)`, hence commutativity. -/
 theorem C01_scan_correct_partial {β : Type} (op : β → β → β) (hassoc : ∀ a b c, op (op a b) c = op a (op b c))
     (hcomm : ∀ a b, op a b = op b a) (A : Nat → β) (n c s i : Nat) (hc : 0 < c) (hi : i < n)
@@ -269,16 +299,19 @@ example : (List.range 15).map (repeatOut1 (fun x => x) 3 2) = [0, 0, 0, 1, 1, 1,
 example : ([2, 3] : List Nat)[1]? = some 3 := by decide
 -- concat of arrays of lengths 3, 0, 4: out block [2, 5) takes [2,3) of array 0 and [0,2) of array 2
 example : arraySlices [3, 0, 4] 0 2 5 = [(0, 2, 3), (2, 0, 2)] := by decide
--- stack hypotheses and the defect
+-- stack: inputs chunked (2,) and (1,): correct after unification, wrong in the old variant
 example : AllPos [2] ∧ InBox [1] [2] := by simp [InBox, AllPos]
+example : stackUnified (fun k idx => 2 * k + idx.headD 0 + 1) [2] (fun k => if k = 0 then [2] else [1]) 0 [1, 1] = some 4 := by decide
 example : stackEval (fun k idx => 2 * k + idx.headD 0 + 1) (fun _ => [2]) (fun k => if k = 0 then [2] else [1]) 0 [1, 1] = some 3 := by decide
 example : stackEval (fun k idx => 2 * k + idx.headD 0 + 1) (fun _ => [2]) (fun _ => [2]) 0 [1, 1] = some 4 := by decide
 -- selections: x[1:12:3] on 12 elements in chunks of 4 (out chunk 1): tiles
 example : (selElems (targetChunkSel1 (chunksOf 4 1) 1 3 2))[0]? = some 7 := by decide
 example : selPick (rechunkSel [5, 7] [2, 3] (divs [4, 5] [2, 3])) (mods [4, 5] [2, 3]) = some [4, 5] := by decide
 example : inBox [1, 0] [2, 2] = true ∧ reshapeKey [4] [2, 2] [1, 0] = [2] := by decide
--- scan: 10 blocks are accepted (5 | 10), 6 are not; addition on Nat is associative and commutative
-example : scanAccepts 5 10 = true ∧ scanAccepts 5 6 = false ∧ scanAccepts 5 3 = true := by decide
+-- scan: 6 blocks: totals array declared with chunks (5, 1); the old declaration (5, 5) was refused
+example : scanReducedSizes 5 6 = [5, 1] ∧ scanReducedSizes 5 26 = [5, 5, 5, 5, 5, 1] ∧ scanReducedSizes 5 3 = [3] := by decide
+example : scanAcceptsOld 5 10 = true ∧ scanAcceptsOld 5 6 = false ∧ scanAcceptsOld 5 3 = true := by decide
+example : (7 : Nat) < 11 ∧ 7 / 5 < nblocks 11 (scanSplitSize 5 11) ∧ 7 % 5 < blockLen 11 (scanSplitSize 5 11) (7 / 5) := by decide
 example : ∀ p, p < nblocks 6 2 → (fun p => ofold (· + ·) ((List.range (p * 2)).map (fun x => x + 1))) p
     = ofold (· + ·) ((List.range (p * 2)).map (fun x => x + 1)) := fun _ _ => rfl
 
